@@ -998,8 +998,13 @@ pub fn generate(seed: u64, prof: Profile, miri: bool) -> RunTrace {
     RunTrace { seed, knobs, pre, threads, sched: Vec::new() }
 }
 
-/// 2-3 fully specified configurations that differ along one axis a cache could be keyed on.
+/// 2-3 fully specified configurations for a contention scenario. Mostly they differ along
+/// *every* axis a cache could be keyed on at once (matrix - both from the chromaticity-derived
+/// class, both standard, or mixed - primaries, transfer, depth, range), so that one workload
+/// thrashes any configuration-keyed cache; sometimes along exactly one axis, for state whose
+/// defect needs everything else to be equal.
 fn make_palette(r: &mut Rng) -> Vec<CfgI> {
+    const DERIVED: [u64; 5] = [8, 9, 11, 12, 13]; // Identity, BT2020CL, ChromaDerivedCL, ST2085, ICtCp
     let n = r.range(2, 3);
     let base = CfgI {
         bd: r.pick(&[8u64, 8, 10, 12]),
@@ -1010,8 +1015,11 @@ fn make_palette(r: &mut Rng) -> Vec<CfgI> {
         tc: 1 + r.below(N_SUP_TRCS),
         cp: 1 + r.below(10), // physical primaries (not ST 428)
     };
-    let axis = r.below(6);
     let ss = r.pick(&[(0u64, 0u64), (0, 0), (1, 1), (1, 0)]);
+    let axis = if r.pct(60) { 5 } else { r.below(5) };
+    let matrix_class = r.below(3); // 0 both derived, 1 both standard, 2 mixed
+    let step_cp = 1 + r.below(3);
+    let step_tc = 1 + r.below(4);
     let mut v = Vec::new();
     for i in 0..n {
         let mut c = base;
@@ -1020,8 +1028,8 @@ fn make_palette(r: &mut Rng) -> Vec<CfgI> {
         match axis {
             // chromaticity-derived matrix, different primaries: the most expensive matrix to build
             0 => {
-                c.mc = r.pick(&[8u64, 9, 11, 12, 13]);
-                c.cp = 1 + (base.cp + i * (1 + r.below(3))) % 10;
+                c.mc = r.pick(&DERIVED);
+                c.cp = 1 + (base.cp + i * step_cp) % 10;
             }
             // different standard matrices
             1 => c.mc = 1 + (base.mc + i) % N_STD_MATS,
@@ -1031,15 +1039,21 @@ fn make_palette(r: &mut Rng) -> Vec<CfgI> {
                 c.full = (base.full + i) % 2;
             }
             // different transfer curves
-            3 => c.tc = 1 + (base.tc + i * (1 + r.below(4))) % N_SUP_TRCS,
+            3 => c.tc = 1 + (base.tc + i * step_tc) % N_SUP_TRCS,
             // different primaries
-            4 => c.cp = 1 + (base.cp + i * (1 + r.below(3))) % 10,
+            4 => c.cp = 1 + (base.cp + i * step_cp) % 10,
             // everything differs
             _ => {
-                c.mc = 1 + r.below(13);
-                c.tc = 1 + r.below(N_SUP_TRCS);
-                c.cp = 1 + r.below(10);
-                c.bd = r.pick(&[8u64, 10, 16]);
+                let derived = match matrix_class {
+                    0 => true,
+                    1 => false,
+                    _ => i % 2 == 0,
+                };
+                c.mc = if derived { DERIVED[((base.mc + i) % 5) as usize] } else { 1 + (base.mc + i) % N_STD_MATS };
+                c.cp = 1 + (base.cp + i * step_cp) % 10;
+                c.tc = 1 + (base.tc + i * step_tc) % N_SUP_TRCS;
+                c.bd = [8u64, 10, 12, 16][((base.bd / 2 + i) % 4) as usize];
+                c.full = (base.full + i) % 2;
             }
         }
         v.push(c);
